@@ -58,9 +58,15 @@ def main():
             p = os.path.join(root, nid, "note.md")
             if os.path.exists(p):
                 note = open(p).read().strip().splitlines()[0][:140].replace("|", "/")
+            rc = os.path.join(root, nid, "reclassified.md")
+            tail = (" **reclassified, see below**" if os.path.exists(rc) and bad else "")
             f.write(f"| {nid} | {note} | {sum(1 for v in res.values() if v[0] == 0)}/{len(res)} | "
-                    f"{'; '.join(f'{p}: {v[1] or v[0]}' for p, v in bad.items()) or '-'} |\n")
+                    f"{'; '.join(f'{p}: {v[1] or v[0]}' for p, v in bad.items()) or '-'}{tail} |\n")
         f.write(f"\n{sum(1 for r in rows if not r[2])} of {len(rows)} changes raise no alarm in any of the 20 checks.\n")
+        for nid, res, bad in rows:
+            rc = os.path.join(root, nid, "reclassified.md")
+            if os.path.exists(rc):
+                f.write(f"\n**{nid}** (not property-preserving after all): " + open(rc).read().strip() + "\n")
 
 
 if __name__ == "__main__":
